@@ -46,7 +46,9 @@ func (t *TargetHasher) SetTargetChangeHash(target *model.Target) error {
 			return fmt.Errorf("dependency %s of %s has no output hash", targetDependency.Label, target.Label)
 		}
 
-		dependencyHashes[index] = targetDependency.OutputHash
+		// Bind the output hash to the dependency it belongs to: two dependencies exchanging their
+		// outputs (same relative path and bytes in different packages) is a change the target must see
+		dependencyHashes[index] = HashString(targetDependency.Label.String() + "\x00" + outputHash)
 	}
 
 	changeHash, err := GetTargetChangeHash(*target, dependencyHashes)
